@@ -35,6 +35,8 @@ FORMATS = [
     "%Y %B", "%b %Y", "%d.%m.%Y %H.%M", "%Y-%m", "%B %d", "%I:%M %p %d %B %Y", "%d %m %Y", "%Y%m%d%H%M%S",
     "%a, %d %b %Y %H:%M:%S", "%A %d %B %Y %H:%M", "%y-%m-%d %H:%M", "%m.%Y", "%d %B %Y %H:%M:%S.%f", "%Y-%m-%d %I %p",
     "%S:%M:%H %Y-%d-%m",
+    # the format states a day but no month (the month is completed; December when the day does not fit the preferred one)
+    "%d %Y", "%Y/%d %H:%M",
     # strings that sanitising/heuristics would rewrite: the raw string matches the format and must win
     "%y.%b.%d", "%b. %d, %Y", "%d.%m.%Y.", "%Y-%m-%d %H:%M:", "%d %B %Y г.", "on: %d/%m/%Y",
 ]
@@ -123,6 +125,8 @@ def h_fmt(fmt, month=None, wday=None, pm=None, languages=("en",), month_name=Non
             em = _zi(v["m"])
         else:
             em = z3.If(pm_.z == 1, 1, z3.If(pm_.z == 2, 12, _zi(clk.month)))
+            if has_day:
+                em = z3.If(_zi(v["d"]) <= dates.z_dim(ey, em), em, 12)
         if has_day:
             ed = _zi(v["d"])
         else:
@@ -244,6 +248,8 @@ def native_check(spec):
     m = (a.get("month") or w.get("m")) if has_month else {"first": 1, "last": 12, "current": clk[1]}[st.get("PREFER_MONTH_OF_YEAR", "current")]
     if "d" in ds:
         d = w["d"]
+        if not has_month and d > _cal.monthrange(y if y is not None else clk[0], m)[1]:
+            m = 12        # documented fallback when the stated day does not exist in the preferred month
     else:
         dim = _cal.monthrange(y if y is not None else 1900, m)[1]
         d = {"first": 1, "last": dim, "current": min(clk[2], dim)}[st.get("PREFER_DAY_OF_MONTH", "current")]
